@@ -59,7 +59,21 @@ def spec_step(m, op):
 def apply_impl(sim, ld, op, conv):
     if op[0] == 'I': ld.insert(op[1], weight=conv(op[2]))
     elif op[0] == 'U': ld.update(op[1], weight_increment=conv(op[2]))
-    elif op[0] == 'R': ld.remove(op[1])
+    elif op[0] == 'R':
+        k = op[1]
+        # half of the removals of a present, positively weighted candidate go through random_removal() (what the simulators call):
+        # the stand-in offers exactly that candidate and an accepting draw, so the result must be the same removal
+        if k in ld and len(ld) % 2 == 0 and (not ld.weighted or ld.weight[k] > 0):
+            old = sim.random
+            sim.random = OneShot(k, 0.0)
+            try:
+                r = ld.random_removal()
+            finally:
+                sim.random = old
+            if r != k:
+                raise AssertionError('random_removal returned %r, the offered and accepted candidate was %r' % (r, k))
+        else:
+            ld.remove(k)
     elif op[0] == 'A': ld.update(op[1])
 
 
